@@ -4,16 +4,18 @@ CHECK = {
     "engine": "E3",
     "technique": "bounded-exhaustive enumeration of initial states x gamma x dt x layout x boundary mix x cell shape, "
                  "one real hydro step each through the real task functions, conserved totals / positivity oracle",
-    "level_text": "Every assignment of a six-state alphabet (rest gas, dense cold, hot thin, supersonic +x/-x, "
-                  "near-vacuum 1e-30) to the cells of 2x2x2, 4x2x1 and 4x1x1 grids (8-cell grids: one assignment per "
-                  "translation orbit; quick tier: four-state sub-alphabet on the 8-cell grids) is advanced by one step "
-                  "for gamma in {1.0001, 1.4, 5/3, 2}, dt in {0.1, 0.5, 1} x the code's own stability limit, subgrid "
-                  "layouts with 1 or 2 subgrids per axis, the 8 periodic/reflective boundary mixes plus one open mix, "
-                  "and cell aspects 1:1:1 and 1:2:4. The step runs through make_hydro_tasks, set_dependencies, "
-                  "reset_hydro_tasks and execute_task of the real code in four different dependency respecting "
-                  "sequential orders. The schedule dimension (thread interleavings of the real loop) is not part of "
-                  "this harness; it is explored by the scheduler engine with the observation functions of "
-                  "hydro_step_driver.hpp. Sequential numeric code over a continuum: exhaustive over the stated alphabet only.",
+    "level_text": "Every assignment of a state alphabet (rest gas, dense cold, hot thin, supersonic +x/-x, near-vacuum "
+                  "1e-30; on the 4-cell grid also Mach 1.1-1.6 +x/-x around the wall-Mach limit) to the cells of 2x2x2, "
+                  "4x2x1 and 4x1x1 grids is advanced by one step for gamma in {1.0001, 1.4, 5/3, 2}, dt in {0.1, 0.5, 1} x "
+                  "the code's own stability limit, subgrid layouts with 1 or 2 subgrids per axis, the 8 periodic/reflective "
+                  "boundary mixes plus one open mix, and cell aspects 1:1:1 and 1:2:4. 4x1x1: all 8^4 assignments; 8-cell "
+                  "grids: one assignment per translation orbit, thorough all six states on 4x2x1 (210 456) and five "
+                  "(without -x) on 2x2x2 (~49 k), quick three-state sub-alphabets (891 / 834). The step runs through "
+                  "make_hydro_tasks, set_dependencies, reset_hydro_tasks and execute_task of the real code in four "
+                  "different dependency respecting sequential orders. The schedule dimension (thread interleavings of "
+                  "the real loop) is not part of this harness; it is explored by the scheduler engine with the "
+                  "observation functions of hydro_step_driver.hpp. Sequential numeric code over a continuum: "
+                  "exhaustive over the stated alphabet only.",
     "level_note": "Totals compared to 64*eps*(sum |conserved| + sum |face flux|*dt); cases where a cell's mass or "
                   "energy is negative before the scheme's clamp are only checked for finiteness/non-negativity; wall "
                   "cases need wall Mach < 1.5 (measured on the state handed to the Riemann solver).",
